@@ -31,7 +31,8 @@ ASSUMPTIONS = [
 ]
 FLOORS = {'parses': 3000, 'delimiters_in_strings': 14,
           'parses_with_defined_names': 500,
-          'parses_on_reused_parser': 3000, 'rejected_formulas_fed': 50}
+          'parses_on_reused_parser': 3000, 'rejected_formulas_fed': 50,
+          'long_formula_parses': 12}
 ANCHOR_FUNCS = {
     'xlcalculator/parser.py': ['FormulaParser.parse',
                                'FormulaParser.shunting_yard',
@@ -504,6 +505,53 @@ def run(ctx):
     R = Runner(ctx)
     sh, n = ctx.shard, ctx.nshards
     thorough = ctx.tier == 'thorough'
+
+    # ---- long formulas (below Excel's 8192 characters): hundreds of chained
+    # operators at one level, hundreds of arguments, deep nesting ---------------
+    if sh in (0, 1, 2) or thorough:
+        from xlcalculator import parser as _parser
+        jobs = []
+        for n_terms, term, op in ((300, 'A{}', '+'), (1200, 'A{}', '+'),
+                                  (2500, '1', '&'), (1500, 'B{}', '*')):
+            text = '=' + op.join(term.format(i + 1) for i in range(n_terms))
+            jobs.append(('chain', text, n_terms, op))
+        jobs.append(('args', '=SUM(' + ','.join(f'A{i + 1}' for i in
+                                                range(250)) + ')', 250, None))
+        nest = '1'
+        for _ in range(60):
+            nest = f'SUM({nest},1)'
+        jobs.append(('nest', '=' + nest, 60, None))
+        for kind, text, count, op in jobs:
+            assert len(text) < 8192, len(text)
+            got = subject.outcome_of_raw(
+                lambda: _parser.FormulaParser().parse(text, {}))
+            ctx.event('long_formula_parses')
+            ctx.case(('long-formula', kind, count))
+            bad = None
+            if got[0] != 'value':
+                bad = f'raised {got[1][:120]}'
+            elif kind == 'chain':
+                # a left-leaning chain: walk it down without recursion
+                node, seen_ops = got[1], 0
+                while getattr(node, 'ttype', '') == 'operator-infix':
+                    if node.tvalue != op or getattr(
+                            node.right, 'ttype', '') != 'operand':
+                        bad = f'unexpected node at operator {seen_ops}'
+                        break
+                    seen_ops += 1
+                    node = node.left
+                if bad is None and seen_ops != count - 1:
+                    bad = f'{seen_ops} operators in the tree, {count - 1} ' \
+                        f'written'
+            elif kind == 'args':
+                if len(got[1].args or []) != count:
+                    bad = f'{len(got[1].args or [])} arguments in the tree'
+            if bad:
+                ctx.fail(f'parse of a {len(text)}-character formula ({kind}, '
+                         f'{count}): {bad}',
+                         {'formula': text[:200] + ' ...', 'length': len(text),
+                          'kind': kind, 'count': count},
+                         monitor='parse-tree', group='long-formula:' + kind)
 
     # ---- exhaustive delimiter block ----------------------------------------
     contexts = [
